@@ -1402,6 +1402,64 @@ example : (exS.setInit 4).2 = false ∧
 example : exS.Legal [.expose, .init 4, .expose, .init 1] := by decide
 example : (exS.setInit 7).2 = true := by decide
 
+/-! ### What the operations hand to the kernel (`parts()` / `buffer_init()`) -/
+
+/-- **A limited buffer never lets the kernel choose.** Whatever is inside —
+also a pool `ReadBuf` that has no buffer yet — the submission of a read into a
+`LimitedBuf` carries the pointer/length pair of `parts_mut()`, whose length is
+at most the limit; only a bare unassigned `ReadBuf` (possibly under `ReadNBuf`)
+asks for buffer selection. -/
+theorem C14_limited_never_selects (i : MBuf) (l : Nat) :
+    (MBuf.limited i l).kparts = .region (MBuf.limited i l).partsMut ∧
+    (MBuf.limited i l).partsMut.len ≤ l := by
+  refine ⟨rfl, ?_⟩
+  show asU32 (min i.partsMut.len l) ≤ l
+  exact Nat.le_trans (asU32_le _) (Nat.min_le_right _ _)
+
+/-- The crate private `parts()` agrees with the public `parts_mut()` except
+for selection: it is either `select` or exactly that pair. -/
+theorem C14_kparts_agree (b : MBuf) : b.kparts = .select ∨ b.kparts = .region b.partsMut := by
+  induction b with
+  | vec b => exact Or.inr rfl
+  | pool o => cases o <;> simp [MBuf.kparts]
+  | limited i l _ => exact Or.inr rfl
+  | readN i k ih => simpa [MBuf.kparts, MBuf.partsMut] using ih
+
+/-- **A read through a limit stores and appends at most the limit**, for every
+inner buffer, limit, pool buffer size and amount of data the kernel has: no
+buffer selection, at most `l` (and at most the reported spare capacity) bytes
+may be stored, and the count returned — the number of bytes marked
+initialised — is at most `l`. -/
+theorem C14_limited_read_within_limit (i : MBuf) (l cap : Nat) (data : List Nat) :
+    (rdp (.limited i l) cap data).1 = false ∧
+    (rdp (.limited i l) cap data).2.1 ≤ l ∧
+    (rdp (.limited i l) cap data).2.1 = (MBuf.limited i l).spare ∧
+    (rdp (.limited i l) cap data).2.2.1 ≤ l := by
+  have h := (C14_limited_never_selects i l).2
+  have hs := C14_len_agree_bufmut_spare (.limited i l)
+  have hk : (MBuf.limited i l).kparts = .region (MBuf.limited i l).partsMut := rfl
+  unfold rdp
+  rw [hk]
+  exact ⟨rfl, h, hs.symm, Nat.le_trans (Nat.min_le_right _ _) h⟩
+
+/-- An unassigned pool buffer on its own asks for selection and ends up holding
+exactly the bytes the kernel delivered (at most one pool buffer). -/
+theorem C14_unassigned_selects (cap : Nat) (data : List Nat) :
+    (rdp (.pool none) cap data).1 = true ∧
+    (rdp (.pool none) cap data).2.2.1 = min data.length cap ∧
+    (rdp (.pool none) cap data).2.2.2.content = data.take (min data.length cap) := by
+  refine ⟨rfl, rfl, ?_⟩
+  simp [rdp, MBuf.kparts, MBuf.bufferInit, MBuf.content, MBuf.leaf, Base.content]
+
+/-- The statements are about something: 4 bytes of limit around an unassigned
+buffer of a 64 byte pool with 64 bytes ready — nothing is stored (the pair of
+an unassigned `ReadBuf` is `(null, 0)`); around one holding 2 bytes, 4 more. -/
+example : rdp (rdpObj 64 [4] none) 64 (List.replicate 64 7) =
+    (false, 0, 0, .limited (.pool none) 4) := by decide
+example : (rdp (rdpObj 8 [4] (some [1, 2])) 8 [9, 9, 9, 9, 9, 9]).2.2.2.content = [1, 2, 9, 9, 9, 9] := by
+  decide
+example : (rdp (rdpObj 8 [] none) 8 [9, 9, 9]).2.2.2.content = [9, 9, 9] := by decide
+
 /-- Read side: `LimitedBuf<SkipBuf<Vec>>`, and a tuple with a limit ≥ 2^32. -/
 def exR : RBuf := .limited (.skip (.base ⟨0, [1, 2, 3, 4, 5], 5⟩) 2) 18446744073709551615
 def exRS : RSlice := .limited (.arr [.base ⟨0, [1, 2], 2⟩, .base ⟨1, [3, 4, 5], 3⟩]) 4294967300
